@@ -3,6 +3,7 @@ mod diff;
 mod harness;
 mod props;
 mod run;
+mod walk;
 
 use harness::{Config, Tier};
 use std::path::PathBuf;
